@@ -29,6 +29,28 @@ type (
 	resolveFieldFinishFuncHandler func(interface{}, error) []gqlerrors.FormattedError
 )
 
+// Finish functions are kept in registration order, one entry per extension:
+// keying them by Extension.Name() would run them in map-iteration order and
+// let two extensions with the same name overwrite each other's function.
+type (
+	namedParseFinishFunc struct {
+		name string
+		fn   ParseFinishFunc
+	}
+	namedValidationFinishFunc struct {
+		name string
+		fn   ValidationFinishFunc
+	}
+	namedExecutionFinishFunc struct {
+		name string
+		fn   ExecutionFinishFunc
+	}
+	namedResolveFieldFinishFunc struct {
+		name string
+		fn   ResolveFieldFinishFunc
+	}
+)
+
 // Extension is an interface for extensions in graphql
 type Extension interface {
 	// Init is used to help you initialize the extension
@@ -76,7 +98,7 @@ func handleExtensionsInits(p *Params) gqlerrors.FormattedErrors {
 
 // handleExtensionsParseDidStart runs the ParseDidStart functions for each extension
 func handleExtensionsParseDidStart(p *Params) ([]gqlerrors.FormattedError, parseFinishFuncHandler) {
-	fs := map[string]ParseFinishFunc{}
+	fs := []namedParseFinishFunc{}
 	errs := gqlerrors.FormattedErrors{}
 	for _, ext := range p.Schema.extensions {
 		var (
@@ -93,12 +115,13 @@ func handleExtensionsParseDidStart(p *Params) ([]gqlerrors.FormattedError, parse
 			ctx, finishFn = ext.ParseDidStart(p.Context)
 			// update context
 			p.Context = ctx
-			fs[ext.Name()] = finishFn
+			fs = append(fs, namedParseFinishFunc{ext.Name(), finishFn})
 		}()
 	}
 	return errs, func(err error) []gqlerrors.FormattedError {
 		errs := gqlerrors.FormattedErrors{}
-		for name, fn := range fs {
+		for _, f := range fs {
+			name, fn := f.name, f.fn
 			func() {
 				// catch panic from a finishFn
 				defer func() {
@@ -115,7 +138,7 @@ func handleExtensionsParseDidStart(p *Params) ([]gqlerrors.FormattedError, parse
 
 // handleExtensionsValidationDidStart notifies the extensions about the start of the validation process
 func handleExtensionsValidationDidStart(p *Params) ([]gqlerrors.FormattedError, validationFinishFuncHandler) {
-	fs := map[string]ValidationFinishFunc{}
+	fs := []namedValidationFinishFunc{}
 	errs := gqlerrors.FormattedErrors{}
 	for _, ext := range p.Schema.extensions {
 		var (
@@ -132,12 +155,13 @@ func handleExtensionsValidationDidStart(p *Params) ([]gqlerrors.FormattedError, 
 			ctx, finishFn = ext.ValidationDidStart(p.Context)
 			// update context
 			p.Context = ctx
-			fs[ext.Name()] = finishFn
+			fs = append(fs, namedValidationFinishFunc{ext.Name(), finishFn})
 		}()
 	}
 	return errs, func(errs []gqlerrors.FormattedError) []gqlerrors.FormattedError {
 		extErrs := gqlerrors.FormattedErrors{}
-		for name, finishFn := range fs {
+		for _, f := range fs {
+			name, finishFn := f.name, f.fn
 			func() {
 				// catch panic from a finishFn
 				defer func() {
@@ -154,7 +178,7 @@ func handleExtensionsValidationDidStart(p *Params) ([]gqlerrors.FormattedError, 
 
 // handleExecutionDidStart handles the ExecutionDidStart functions
 func handleExtensionsExecutionDidStart(p *ExecuteParams) ([]gqlerrors.FormattedError, executionFinishFuncHandler) {
-	fs := map[string]ExecutionFinishFunc{}
+	fs := []namedExecutionFinishFunc{}
 	errs := gqlerrors.FormattedErrors{}
 	for _, ext := range p.Schema.extensions {
 		var (
@@ -171,12 +195,13 @@ func handleExtensionsExecutionDidStart(p *ExecuteParams) ([]gqlerrors.FormattedE
 			ctx, finishFn = ext.ExecutionDidStart(p.Context)
 			// update context
 			p.Context = ctx
-			fs[ext.Name()] = finishFn
+			fs = append(fs, namedExecutionFinishFunc{ext.Name(), finishFn})
 		}()
 	}
 	return errs, func(result *Result) []gqlerrors.FormattedError {
 		extErrs := gqlerrors.FormattedErrors{}
-		for name, finishFn := range fs {
+		for _, f := range fs {
+			name, finishFn := f.name, f.fn
 			func() {
 				// catch panic from a finishFn
 				defer func() {
@@ -193,7 +218,7 @@ func handleExtensionsExecutionDidStart(p *ExecuteParams) ([]gqlerrors.FormattedE
 
 // handleResolveFieldDidStart handles the notification of the extensions about the start of a resolve function
 func handleExtensionsResolveFieldDidStart(exts []Extension, p *executionContext, i *ResolveInfo) ([]gqlerrors.FormattedError, resolveFieldFinishFuncHandler) {
-	fs := map[string]ResolveFieldFinishFunc{}
+	fs := []namedResolveFieldFinishFunc{}
 	errs := gqlerrors.FormattedErrors{}
 	for _, ext := range p.Schema.extensions {
 		var (
@@ -210,12 +235,13 @@ func handleExtensionsResolveFieldDidStart(exts []Extension, p *executionContext,
 			ctx, finishFn = ext.ResolveFieldDidStart(p.Context, i)
 			// update context
 			p.Context = ctx
-			fs[ext.Name()] = finishFn
+			fs = append(fs, namedResolveFieldFinishFunc{ext.Name(), finishFn})
 		}()
 	}
 	return errs, func(val interface{}, err error) []gqlerrors.FormattedError {
 		extErrs := gqlerrors.FormattedErrors{}
-		for name, finishFn := range fs {
+		for _, f := range fs {
+			name, finishFn := f.name, f.fn
 			func() {
 				// catch panic from a finishFn
 				defer func() {
